@@ -13,6 +13,7 @@ import (
 	"sync"
 
 	"cuelang.org/go/internal/par"
+	"cuelang.org/go/internal/simhook"
 )
 
 // A Reqs is the requirement graph on which Minimal Version Selection (MVS) operates.
@@ -132,6 +133,7 @@ func buildList[V comparable](targets []V, reqs Reqs[V], upgrade func(V) (V, erro
 			}
 		}
 
+		simhook.Acquire("mvs.buildList", &mu)
 		mu.Lock()
 		if err != nil {
 			errs[m] = err
@@ -142,6 +144,7 @@ func buildList[V comparable](targets []V, reqs Reqs[V], upgrade func(V) (V, erro
 		}
 		g.Require(m, required)
 		mu.Unlock()
+		simhook.Release("mvs.buildList", &mu)
 
 		for _, r := range required {
 			work.Add(r)
